@@ -27,6 +27,9 @@ INTEGER_UNITS = set("bBhHiIlkLKn")
 FLOAT_UNITS = set("fd")
 
 
+SIGNED_TO_UNSIGNED = {"h": "H", "i": "I", "l": "k", "L": "K"}
+
+
 def rule_r1(repo, run, types):
     R = run.rule("C03.R1", "PyArg_Parse format unit writes exactly the size of the variable it is stored into")
     n = 0
@@ -56,6 +59,16 @@ def rule_r1(repo, run, types):
             run.fail(R, construct + ":family", "integer unit %r for floating type %s" % (unit, ctype), types.loc(name))
         if unit in FLOAT_UNITS and not ("float" in ctype or "double" in ctype):
             run.fail(R, construct + ":family", "floating unit %r for type %s" % (unit, ctype), types.loc(name))
+        # signedness: the signed units range-check against the signed type (OverflowError for the upper half of an
+        # unsigned type); the unsigned units of the same size do not
+        ctype_ = str(t.get("c_type"))
+        unsigned = ctype_.startswith("unsigned") or re.match(r"uint\d+_t$", ctype_) is not None
+        if unsigned and unit in SIGNED_TO_UNSIGNED:
+            run.fail(R, construct + ":signedness", "the unsigned type %s is parsed with the signed unit %r: values above the signed maximum "
+                     "(40000 for an unsigned short) raise OverflowError although the library accepts them; the unsigned unit of that "
+                     "size is %r" % (ctype_, unit, SIGNED_TO_UNSIGNED[unit]), types.loc(name))
+        else:
+            run.ok(R, construct + ":signedness")
     run.floor(R, "typemaps with a PyArg_Parse unit", n, 20)
 
 
